@@ -142,6 +142,53 @@ def h_dispatch_rect(ctx, n, r, perm, dr_min, dr_max):
     ctx.claim('B_I_identity', ctx.all_eq(B[I, :], eye(ctx, q)))
 
 
+def h_dispatch_square_stage(ctx, n, r, perm, k0):
+    """teneva._maxvol without growth (dr_max = 0): the plain maxvol stage is run with
+    the accuracy tau0 and the iteration limit k0 it was given (spy on teneva.maxvol)."""
+    A = _plu(ctx, n, r, perm)
+    A0 = A.copy()
+    tau0 = ctx.real('tau0')
+    ctx.assume(ctx.ge(tau0, 1))
+    seen = []
+    real = teneva.maxvol
+
+    def spy(M, e=1.05, k=100):
+        seen.append((e, k))
+        return real(M, e, k)
+    teneva.maxvol = spy
+    try:
+        I, B = teneva._maxvol(A, 1.1, 0, 0, tau0, k0)
+    finally:
+        teneva.maxvol = real
+    I = [int(i) for i in I]
+    ctx.claim('stage_called_once_with_given_limit', len(seen) == 1 and seen[0][1] == k0)
+    ctx.claim('stage_called_with_given_accuracy', len(seen) == 1 and bool(ctx.eq(seen[0][0], tau0)))
+    ctx.claim('rows_valid', len(I) == r and len(set(I)) == r and all(0 <= i < n for i in I))
+    ctx.claim('A_eq_B_AI', ctx.all_eq(B @ A0[I, :], A0))
+
+
+def h_maxvol_int(ctx, rows):
+    """A matrix of integer dtype: same contract (the coefficient matrix is real valued)."""
+    n, r = len(rows), len(rows[0])
+    order, Lq, Uq = _exact_plu(rows)
+    K = lambda q: ctx.const(q.numerator) / q.denominator if q.denominator != 1 else ctx.const(q.numerator)
+    dt = object if is_sym(ctx) else float
+    L = np.array([[K(v) for v in row] for row in Lq], dtype=dt)
+    U = np.array([[K(v) for v in row] for row in Uq], dtype=dt)
+    Pm = np.array([[ctx.const(1 if order[j] == i else 0) for j in range(n)] for i in range(n)], dtype=dt)
+    A = np.array(rows, dtype=int)
+    Ac = np.array([[ctx.const(int(v)) for v in row] for row in rows], dtype=dt)
+    expect(ctx, 'lu', Ac, (Pm, L, U))
+    e = ctx.real('e')
+    ctx.assume(ctx.ge(e, 1))
+    I, B = teneva.maxvol(A, e, 5)
+    I = [int(i) for i in I]
+    ctx.claim('rows_valid', len(I) == r and len(set(I)) == r and all(0 <= i < n for i in I))
+    ctx.claim('A_eq_B_AI', ctx.all_eq(B @ Ac[I, :], Ac))
+    ctx.claim('B_I_identity', ctx.all_eq(B[I, :], eye(ctx, r)))
+    ctx.claim('input_untouched', bool(np.array_equal(A, np.array(rows))) and A.dtype.kind == 'i')
+
+
 def h_reject(ctx, n, r):
     A = mat(ctx, 'a', n, r)
     ctx.raises(ValueError, 'wide_or_square_rejected', teneva.maxvol, A)
@@ -183,6 +230,10 @@ def instances(tier):
                                                             'dr_min': a, 'dr_max': b, 'k0': k0}})
     for (n, r, a, b) in [(3, 2, 2, 2), (3, 1, 3, 5), (4, 2, 3, 3), (3, 2, 1, 1), (3, 1, 0, 2), (4, 2, 0, 1)]:
         out.append({'func': 'h_dispatch_rect', 'params': {'n': n, 'r': r, 'perm': list(range(n)), 'dr_min': a, 'dr_max': b}})
+    for k0 in (7, 250):
+        out.append({'func': 'h_dispatch_square_stage', 'params': {'n': 3, 'r': 2, 'perm': [1, 2, 0], 'k0': k0}})
+    for rows in ([[3, 1], [1, 2], [2, -3]], [[1, 2], [3, 1], [-2, 5], [4, 4]]):
+        out.append({'func': 'h_maxvol_int', 'params': {'rows': rows}})
     for n, r in [(2, 2), (2, 3), (1, 1)]:
         out.append({'func': 'h_reject', 'params': {'n': n, 'r': r}})
         out.append({'func': 'h_dispatch', 'params': {'n': n, 'r': r}})
